@@ -28,7 +28,9 @@ VARIABLES f,      \* cache view of the file: [exists, len, good]
           disk,   \* what survives power loss: [exists, len, good]
           fd,     \* [open, off, synced] of the descriptor Persist holds; synced = fsync seen after the last write
           pc,     \* protocol position / outcome
-          item,   \* [size, failAt, cancel]   failAt = -1: the item writer never fails
+          item,   \* [size, failAt, cancel, pre, held]   failAt = -1: the item writer never fails;
+                  \* pre = length of the file that existed before (-1: none); held = a Load of that
+                  \* file is still open (it holds the shared lock), so the exclusive lock is refused
           okSeen  \* ghost: Persist reported success for this item
 
 vars == <<f, disk, fd, pc, item, okSeen>>
@@ -53,13 +55,22 @@ Init ==
   /\ disk = f
   /\ fd = [open |-> FALSE, off |-> 0, synced |-> FALSE]
   /\ pc = "call"
-  /\ \E size \in 0..MaxSize, failAt \in (-1)..MaxSize, cancel \in BOOLEAN :
+  /\ \E size \in 0..MaxSize, failAt \in (-1)..MaxSize, cancel \in BOOLEAN, held \in BOOLEAN :
         /\ failAt <= size
-        /\ item = [size |-> size, failAt |-> failAt, cancel |-> cancel]
+        /\ held => f.exists
+        /\ item = [size |-> size, failAt |-> failAt, cancel |-> cancel,
+                   pre |-> (IF f.exists THEN f.len ELSE -1), held |-> held]
   /\ okSeen = FALSE
 
+\* open + flock(EX|NB).  A file that a Load still holds refuses the lock: the call
+\* fails having changed nothing (the truncation comes only after the lock is held).
+PRefused ==
+  /\ pc = "call" /\ item.held
+  /\ pc' = "refused"
+  /\ UNCHANGED <<f, disk, fd, item, okSeen>>
+
 POpen ==
-  /\ pc = "call"
+  /\ pc = "call" /\ ~item.held
   /\ f' = SysOpenCreate(f)
   /\ disk' = (IF disk.exists THEN disk ELSE [exists |-> TRUE, len |-> 0, good |-> 0]) \* directory entry: trusted durable
   /\ fd' = [open |-> TRUE, off |-> 0, synced |-> FALSE]
@@ -117,7 +128,7 @@ PowerLoss ==
   /\ pc' = "dead"
   /\ UNCHANGED <<disk, item, okSeen>>
 
-Next == POpen \/ PTruncate \/ PWrite \/ PSync \/ PClose \/ PCleanup \/ PowerLoss
+Next == PRefused \/ POpen \/ PTruncate \/ PWrite \/ PSync \/ PClose \/ PCleanup \/ PowerLoss
 Spec == Init /\ [][Next]_vars
 
 \* ---- properties (C13) ------------------------------------------------------------
@@ -129,5 +140,8 @@ SyncedOnSuccess == pc = "ok" => fd.synced /\ disk = f
 DurableAfterSuccess == (pc = "dead" /\ okSeen) => Exact(f, item.size)
 \* failure or cancellation leaves nothing under the item's name
 NothingLeftOnFailure == pc = "err" => ~f.exists
-TypeOK == pc \in {"call", "trunc", "write", "sync", "close", "ok", "fail", "err", "dead"}
+\* a Persist refused because the item's file is in use leaves that file as it was
+PreFile == [exists |-> TRUE, len |-> item.pre, good |-> 0]
+RefusedLeavesFileIntact == pc = "refused" => f = PreFile /\ disk = PreFile
+TypeOK == pc \in {"refused", "call", "trunc", "write", "sync", "close", "ok", "fail", "err", "dead"}
 =============================================================================
